@@ -37,7 +37,9 @@ INVARIANTS %(inv)s
 CHECK_DEADLOCK FALSE
 """
 
-MC_INV = "TypeOK NoMixture TakesEffect BadKeepsGood RegIsLastGood NoSpin"
+# Ar = the material of A under permuted file names (CertStore!Renamed, LoadRenamed): the other certificate is the default
+GOOD_R = '{"A", "Ar", "B"}'
+MC_INV = "TypeOK NoMixture TakesEffect BadKeepsGood RegIsLastGood NoSpin RenameTakesEffect"
 
 
 def cfg(spec, loads=0, hs=0, clients="{}", unusable='{"U1"}', refresh=1, split=False, spin=False, view=False, inv="TypeOK",
@@ -51,11 +53,21 @@ def model(ctx):
     """(a): the state machine, and that its properties can fail."""
     loads, hs = ctx.pick((4, 2), (5, 2))
     clients = ctx.pick('{"c1", "c2"}', '{"c1", "c2", "c3"}')
-    mc = ctx.tlc("CertStore_MC", cfg_text=cfg("MCSpec", loads, hs, clients, refresh=3, view=True, inv=MC_INV),
+    # thorough: the deep run has two contents, A and its renamed twin (as many states as {A, B}: every change of the
+    # source is then a rename, the first load a LoadGood); all three contents together at the quick bounds
+    mc = ctx.tlc("CertStore_MC", cfg_text=cfg("MCSpec", loads, hs, clients, refresh=3, view=True, inv=MC_INV,
+                                              good=ctx.pick(GOOD_R, '{"A", "Ar"}')),
                  workers=8, timeout=ctx.pick(300, 1800), coverage=ctx.thorough)
     ctx.log("MC: %d generated, %d distinct, depth %d, %.0fs" % (mc.generated, mc.distinct, mc.depth, mc.wall))
     if not ctx.need_tlc_ok(mc, "CertStore MC"):
         return False
+    if ctx.thorough:
+        m3 = ctx.tlc("CertStore_MC", cfg_text=cfg("MCSpec", 4, 2, '{"c1", "c2"}', refresh=3, view=True, inv=MC_INV, good=GOOD_R),
+                     workers=8, timeout=600)
+        ctx.log("MC, three contents: %d generated, %d distinct, depth %d, %.0fs" % (m3.generated, m3.distinct, m3.depth, m3.wall))
+        if not ctx.need_tlc_ok(m3, "CertStore MC (three contents)"):
+            return False
+        ctx.cover("mc3", states=m3.distinct, transitions=m3.generated)
     if ctx.thorough:
         never = [a for a in mc.coverage0 if a != "APublish2"]   # Publish2 exists only under the SplitStore deviation
         if never:
@@ -83,7 +95,7 @@ def generate(ctx):
     watch = os.path.join(ctx.tmp, "c11.watch")
     unusable = ctx.pick('{"U1", "U2"}', '{"U1", "U2", "U3"}')
     w = ctx.tlc("CertStore_MC", cfg_text=cfg("GenWSpec", ctx.pick(4, 5), unusable=unusable,
-                                              inv=HIST_INV),
+                                              inv=HIST_INV, good=GOOD_R),
                 workers=8, json_sink=watch, timeout=600)
     ctx.log("watcher histories: %d states, %.0fs" % (w.distinct, w.wall))
     if not ctx.need_tlc_ok(w, "CertStore watcher histories"):
@@ -92,16 +104,17 @@ def generate(ctx):
     return sel, watch
 
 
-HIST_INV = "TypeOK BadKeepsGood BadNeverPublishes RegIsLastGood NoSpin NoSpinHist"
+HIST_INV = "TypeOK BadKeepsGood BadNeverPublishes RegIsLastGood NoSpin NoSpinHist RenameTakesEffect"
 
 # the universes of the real-source histories (see CertStore_MC!GenSSpec and harness/cert/c11_sources_test.go)
 SOURCES = (
+    # Ar (path-unreadable, http) is A with the file names of two certificates exchanged: same files, same PEM blocks, other default
     # path source, every content has the same file names: files that are listed but cannot be read abort the load
-    ("path", "path-unreadable", '{"A", "B"}', '{"pem", "unread-c", "unread-p", "foreign"}', "{}"),
+    ("path", "path-unreadable", '{"A", "Ar", "B"}', '{"pem", "unread-c", "unread-p", "foreign"}', "{}"),
     # path source, a certificate deleted on purpose (As) is a legitimate smaller set; a missing key half is not
     ("path", "path-shrink", '{"A", "As", "B"}', '{"pem", "nokey", "foreign"}', "{}"),
     # http source: broken files, files the server does not have / fails on, and an unavailable listing
-    ("http", "http", '{"A", "As", "B"}', '{"pem", "nokey", "file404", "file500"}', '{"list404", "list500", "listgarbage", "down"}'),
+    ("http", "http", '{"A", "As", "Ar", "B"}', '{"pem", "nokey", "file404", "file500"}', '{"list404", "list500", "listgarbage", "down"}'),
     # consul source (real ConsulSource against a fake of the KV list endpoint with blocking queries): "same" is a
     # re-upload of identical files (the index moves), As a certificate whose keys were deleted, kv500 a store without leader
     ("consul", "consul", '{"A", "As", "B"}', '{"pem", "nokey", "foreign"}', '{"kv500"}'),
@@ -130,7 +143,11 @@ def generate_sources(ctx):
             lines = [l for l in open(tmp).read().splitlines() if json.loads(l)["hist"][0]["kind"] == "good"]
             total = len(lines)
             if len(lines) > c and source != "consul":     # the consul source has no poll interval: all of them
-                lines = rnd.sample(lines, c)
+                # every kind of change stays represented: a third of the sample are histories with a rename
+                ren = [l for l in lines if any(st["kind"] == "rename" for st in json.loads(l)["hist"])]
+                oth = [l for l in lines if l not in set(ren)]
+                k = min(len(ren), c // 3)
+                lines = rnd.sample(ren, k) + rnd.sample(oth, min(len(oth), c - k))
             with open(out[source], "a") as fh:
                 for l in lines:
                     fh.write(l + "\n")
